@@ -32,6 +32,9 @@ class DiskFile:
         """Instance of the OnDisk axioms at ordinal j (valid for 0 <= j < m)."""
         j = to_z3(j)
         fb = self.fab(j)
+        ctx = self.ctx
+        total = ctx.define(zprod(list(fb.shape) + [fb.line.nc()]), "prod")     # as np.prod(shape incl. components) names it
         return z3.Implies(z3.And(j >= 0, j < self.m),
                           z3.And(*[to_z3(f) for f in fab_facts(fb, self.canonical)],
-                                 self.P(j + 1) == to_z3(fb.end)))
+                                 self.P(j + 1) == to_z3(fb.end),
+                                 self.P(j + 1) == to_z3(fb.data0) + 8 * total))
